@@ -222,9 +222,8 @@ Qed.
 
 (* ------------------------------------------------------------------ exporter and keys *)
 
-Section KeysSound.
+Section ExporterSound.
   Variable PHash : bytes -> bytes -> N -> N -> bytes.
-  Variable KeyBlock : bytes -> bytes -> bytes -> N -> bytes.
   Variable reserved : bytes -> bool.
 
   Lemma conn_exporter_imported s id label n :
@@ -286,6 +285,11 @@ Section KeysSound.
     unfold exporter, p_client_random, p_server_random. cbn.
     rewrite He, Hh, Hm, Hlr, Hrl, Hc. destruct (i_is_client s); reflexivity.
   Qed.
+
+End ExporterSound.
+
+Section KeysSound.
+  Variable KeyBlock : bytes -> bytes -> bytes -> N -> bytes.
 
   (* the key block is a function of master secret + randoms (ordered by role) + suite class,
      all preserved; so is the role that selects the write half *)
